@@ -71,10 +71,17 @@ theorem vStep_trans {s s' : VSt} {e : Ev} (h : vStep s e = .ok s') : VTrans s s'
             rw [guard_ok] at h; obtain ⟨_, h⟩ := h
             cases h; exact .eff e.tid _ _ rfl rfl
           · split at h
-            · rw [guard_ok] at h; obtain ⟨_, h⟩ := h
+            · -- rm: pre-check under the read lock
               rw [guard_ok] at h; obtain ⟨_, h⟩ := h
-              cases h; exact .eff e.tid _ _ rfl rfl
-            · cases h
+              rw [guard_ok] at h; obtain ⟨_, h⟩ := h
+              split at h
+              · cases h; exact .eff e.tid _ _ rfl rfl
+              · cases h; exact .frame rfl rfl
+            · split at h
+              · rw [guard_ok] at h; obtain ⟨_, h⟩ := h
+                rw [guard_ok] at h; obtain ⟨_, h⟩ := h
+                cases h; exact .eff e.tid _ _ rfl rfl
+              · cases h
       · -- rheld
         rw [guard_ok] at h; obtain ⟨_, h⟩ := h
         split at h
@@ -106,6 +113,15 @@ theorem vStep_trans {s s' : VSt} {e : Ev} (h : vStep s e = .ok s') : VTrans s s'
           split at h
           · cases h
           · cases h; exact .frame rfl rfl
+      · -- rmRheld
+        rw [guard_ok] at h; obtain ⟨_, h⟩ := h
+        split at h
+        · cases h; exact .frame rfl rfl
+        · cases h; exact .frame rfl rfl
+      · -- rmNeedW
+        rw [guard_ok] at h; obtain ⟨_, h⟩ := h
+        rw [guard_ok] at h; obtain ⟨_, h⟩ := h
+        cases h; exact .eff e.tid _ _ rfl rfl
 
 theorem vItem_trans {s s' : VSt} {it : Item} (h : vItem s it = .ok s') : VTrans s s' := by
   cases it with
